@@ -213,6 +213,32 @@ pub fn observe(out: &mut String, gs: &GameState, kind: u64, panics: &mut u64) {
     if let Ok(n) = &norep {
         guarded(out, 'K', || n.iter().map(|a| enc_preview(gs.trapped_animal_for_action(a))).collect(), panics);
     }
+    guarded(
+        out,
+        'W',
+        || {
+            let b = gs.piece_board();
+            let kinds = [Piece::Elephant, Piece::Camel, Piece::Horse, Piece::Dog, Piece::Cat, Piece::Rabbit];
+            let mut v = vec![b.player_piece_mask(true), b.player_piece_mask(false)];
+            for k in kinds.iter() {
+                v.push(b.bits_for_piece(*k, true));
+                v.push(b.bits_for_piece(*k, false));
+            }
+            for k in kinds.iter() {
+                v.push(b.bits_by_piece_type(*k));
+            }
+            v.push(if gs.is_play_phase() { 0 } else { b.placement_bit() });
+            v.push(b.trapped_piece_bits());
+            for i in 0..64u8 {
+                v.push(match b.piece_type_at_square(&Square::from_index(i)) {
+                    Some(k) => 1 + piece_code(k),
+                    None => 0,
+                });
+            }
+            v
+        },
+        panics,
+    );
     if gs.is_play_phase() {
         let step = gs.current_step();
         for i in 0..=step {
